@@ -215,7 +215,7 @@ def _exp_of(self, st, x):
         st.exp_zero = getattr(st, 'exp_zero', 0) + 1
         return Fraction(1)
     t = mk_real(n, d)
-    if is_conc_real(t) and self.opts.get('concrete_defaults'):
+    if is_conc_real(t) and (self.opts.get('concrete_defaults') or self.opts.get('numeric_exp')):
         import math
         st.exp_conc = getattr(st, 'exp_conc', ()) + (t,)
         return Fraction(math.exp(float(t)))      # concrete validation run: numeric value, compared to 1e-9
